@@ -8,4 +8,5 @@ import (
 func init() {
 	fw.Families["C06"] = poolmon.RunC06
 	fw.Families["C17"] = poolmon.RunC17
+	fw.Families["C07"] = poolmon.RunC07
 }
